@@ -430,7 +430,9 @@ def serve(om, prog, method, cfg, outcome='found', file_wrapper=False):
             if _i == 0 and cfg.get('rewrite') == 'path' and outcome == 'found':
                 app.request.environ['PATH_INFO'] = '/h'                 # hooks run BEFORE routing: the new path is routed
             if _i == 0 and cfg.get('rewrite') == 'method' and outcome == 'found':
-                app.request.environ['REQUEST_METHOD'] = 'POST' if app.request.environ['REQUEST_METHOD'] == 'PATCH' else app.request.environ['REQUEST_METHOD']
+                # the method-override recipe: look at the verb, then put another one in place through the item interface
+                seen_verb = app.request.method
+                app.request['REQUEST_METHOD'] = 'POST' if seen_verb == 'PATCH' else seen_verb
             if _i == 0 and cfg.get('rewrite') == 'lazy-route' and outcome == 'found' and not rec.get('lazy'):
                 rec['lazy'] = True
                 app.route('/lazy', ['GET', 'POST'], handler)
@@ -643,7 +645,7 @@ def work(spec):
     elif kind == 'configs':
         for cfg in CONFIGS:
             for prog in REPR_PROGS:
-                for method in ('GET', 'HEAD'):
+                for method in (('GET', 'HEAD', 'POST') if cfg.get('rewrite') else ('GET', 'HEAD')):      # (the method rewrite acts on POST)
                     run_case(res, om, prog, method, cfg)
     elif kind == 'allconfigs':
         # thorough: every program of the grammar under every hook / error-handler configuration
@@ -654,7 +656,7 @@ def work(spec):
             for cfg in CONFIGS:
                 if cfg.get('other_app'):
                     continue
-                for method in ('GET', 'HEAD'):
+                for method in (('GET', 'HEAD', 'POST') if cfg.get('rewrite') else ('GET', 'HEAD')):
                     run_case(res, om, prog, method, cfg)
         core.add_sample(res, {'configs': CONFIGS[:4], 'representative_programs': core.jsonable(REPR_PROGS[:4])})
     elif kind == 'outcomes':
